@@ -884,8 +884,90 @@ def _inl(rule):
     return run
 
 
+def rule_count_always(model):
+    from ..flow import BaseState, Domain, Interp
+    from .c10 import _key_prefix
+
+    class S(BaseState):
+        def __init__(self, stored=False):
+            self.stored = stored
+
+        def key(self):
+            return (self.stored,)
+
+        def copy(self):
+            n = S(self.stored)
+            n.trace = self.trace
+            return n
+
+    class D(Domain):
+        def __init__(self, fi):
+            self.fi = fi
+            self.sites = 0
+
+        def raises(self, node, st):
+            return ['ZeroDivisionError', 'TypeError'] if any(
+                isinstance(x, (ast.BinOp, ast.Call, ast.Compare))
+                for x in ast.walk(node)) else []
+
+        def effects(self, stmt, st):
+            if isinstance(stmt, ast.Assign):
+                for t in stmt.targets:
+                    if not isinstance(t, ast.Subscript):
+                        continue
+                    pre = _key_prefix(model, self.fi, t.slice)
+                    blank = isinstance(stmt.value, ast.Constant) and \
+                        stmt.value.value == ''
+                    if pre == 'count-' and not blank:
+                        self.sites += 1
+                        if not st.stored:
+                            st = st.copy()
+                            st.stored = True
+                    elif (pre == 'count-' and blank) or (
+                            not pre and blank):
+                        # the preset of every statistic to ''
+                        if st.stored:
+                            st = st.copy()
+                            st.stored = False
+            return st
+
+    r = RuleResult('C16.R8', 'count-<name> is a number on every path: the '
+                   'store of the count is passed on every way through the '
+                   'summary computation after the statistics were preset '
+                   "to '' (a column whose values are all missing has count "
+                   "0, not '')")
+    fi = model.func('DT_InSV', 'sequence_variables.statistics')
+    n = 0
+    for f in model.closure(fi):
+        dom = D(f)
+        it = Interp(dom, max_states=120000)
+        outs = it.run(f.node, S())
+        if it.overflow:
+            raise AnalysisError(f'C16.R8: state budget in {f.where}')
+        if not dom.sites:
+            continue
+        n += 1
+        ends = [o for o in outs if o.kind in ('normal', 'return')]
+        bad = [o for o in ends if not o.state.stored]
+        r.instance(f.where, "data['count-%s' % name] = count",
+                   f'{len(ends)} normal exit(s), {len(bad)} without the '
+                   'count')
+        if bad:
+            r.finding(f.where, 'count-<name> not stored', 'a path through '
+                      'the summary computation ends without having stored '
+                      "count-<name>: it keeps the preset '' (for a column "
+                      'without a single usable value the count must be 0)',
+                      node=bad[0].node if bad[0].node is not None
+                      else f.node, ctx=f, path=bad[0].state.trace)
+    if n < 1:
+        raise AnalysisError('C16.R8: the store of count-<name> was not '
+                            'found in the summary computation')
+    return r
+
+
 RULES = [_inl(rule_formulas), _inl(rule_extremes), _inl(rule_median),
-         _inl(rule_missing), rule_first_match, _inl(rule_every_item)]
+         _inl(rule_missing), rule_first_match, _inl(rule_every_item),
+         _inl(rule_count_always)]
 EXPLANATION = (
     'Formula agreement over the domain of rational functions (canonical '
     'quotients of polynomials in S1, S2, n; sqrt uninterpreted): one loop '
